@@ -18,7 +18,8 @@ VERIF = os.path.dirname(os.path.dirname(os.path.abspath(__file__)))
 
 
 def main():
-    sel = set(sys.argv[1:])
+    as_json = "--json" in sys.argv
+    sel = set(a for a in sys.argv[1:] if a != "--json")
     muts = []
     for f in sorted(glob.glob(os.path.join(VERIF, "vf", "mutants", "*.json"))):
         muts.extend(json.load(open(f)))
@@ -71,6 +72,11 @@ def main():
         print("mutants: %d, killed: %d, survived: %d, n/a or broken: %d" % (
             len(results), killed, sum(1 for r in results if r[1] == "SURVIVED"),
             sum(1 for r in results if r[1] not in ("SURVIVED",) and not r[1].startswith("KILLED"))))
+        if as_json:
+            print(json.dumps({"selftest": {"mutants": len(results), "killed": killed,
+                                           "survived": [r[0] for r in results if r[1] == "SURVIVED"],
+                                           "not_applicable_or_broken": [r[0] for r in results if r[1] != "SURVIVED" and not r[1].startswith("KILLED")],
+                                           "ids": [r[0] for r in results]}}))
         return 0 if all(r[1] != "SURVIVED" for r in results) else 1
     finally:
         shutil.rmtree(scratch, ignore_errors=True)
